@@ -31,6 +31,56 @@ def xer_variants(text, rng, count):
         out.append((f"xer-ws{k}", s.encode("utf-8", "surrogateescape")))
     return out
 
+# tagged strings (former finding F58): constructed encodings whose segments are universal OCTET STRINGs (BIT STRINGs),
+# below IMPLICIT and EXPLICIT tags written on the type, on a reference and on a SEQUENCE component
+STRSEG_MODULE = """STRSEG DEFINITIONS ::= BEGIN
+  SgIa ::= IA5String
+  SgUt ::= UTF8String
+  SgTm ::= UTCTime
+  SgImp ::= [5] IMPLICIT OCTET STRING
+  SgExp ::= [1] EXPLICIT OCTET STRING
+  SgExpIa ::= [APPLICATION 2] EXPLICIT IA5String
+  SgImpBs ::= [6] IMPLICIT BIT STRING
+  SgExpBs ::= [7] EXPLICIT BIT STRING
+  SgRef ::= [8] IMPLICIT SgExpIa
+  SgTwo ::= [9] EXPLICIT SgExp
+END
+"""
+STRSEG_TYPES = [  # (type, length of the tag chain, BIT STRING?, values)
+    ("SgIa", 1, False, ["(os 616263646566)", "(os 61)"]), ("SgUt", 1, False, ["(os c3a4c3b6c3bc)"]),
+    ("SgTm", 1, False, ["(os 3939313233313233353935395a)"]),
+    ("SgImp", 1, False, ["(os 0001020304)", "(os ff)"]), ("SgExp", 2, False, ["(os 0001020304)"]),
+    ("SgExpIa", 2, False, ["(os 616263646566)"]), ("SgImpBs", 1, True, ["(bs 0102f0 4)", "(bs a5 0)"]),
+    ("SgExpBs", 2, True, ["(bs 0102f0 4)"]), ("SgRef", 2, False, ["(os 6162636465)"]), ("SgTwo", 3, False, ["(os 6162636465)"]),
+]
+
+def run_tagged_strings(ctx, stats, fails):
+    names = [n for n, _, _, _ in STRSEG_TYPES]
+    b = bundle.Bundle("STRSEG", STRSEG_MODULE, names)
+    try:
+        exe = b.build()
+        enc = [(n, ch, bits, v) for n, ch, bits, vals in STRSEG_TYPES for v in vals]
+        outs, _ = ctx.run_c_bisect(exe, [f"@{n} enc der {v}" for n, _, _, v in enc])
+        lines, meta = [], []
+        for (n, ch, bits, v), o in zip(enc, outs):
+            if not (o and str(o).startswith("ok ")):
+                fails.append((STRSEG_MODULE, n, f"@{n} enc der {v}", str(o), "DER encoding of a tagged string failed", "ber", "constructed-tagged")); continue
+            der = bytes.fromhex(o[3:])
+            for name, vb in bervar.string_variants(der, ch, bits, ctx.rng):
+                lines.append(f"@{n} reenc ber {vb.hex()}"); meta.append((n, v, name, der, len(vb)))
+        outs, _ = ctx.run_c_bisect(exe, lines)
+        for l, o, (n, v, name, der, vlen) in zip(lines, outs, meta):
+            stats["cases"] += 1; stats["variant:constructed-tagged"] += 1
+            mm = re.match(r"(\w+) (\d+) (\S+) (.*)$", str(o)); why = None
+            if not mm: why = "crash/unparsable: " + str(o)[:100]
+            elif mm.group(1) != "ok": why = f"valid ber encoding ({name}) rejected: rc={mm.group(1)}"
+            elif int(mm.group(2)) != vlen: why = f"consumed {mm.group(2)} of {vlen}"
+            elif mm.group(3) != der.hex(): why = "DER re-encoding of the decoded variant differs from the DER of the value"
+            if why: fails.append((STRSEG_MODULE, n, l, str(o), why, "ber", name))
+            else: ctx.count_nontrivial(("ber", "constructed-tagged", hash(l)))
+    finally:
+        b.cleanup()
+
 def run(ctx):
     ctx.lean()
     gfind.replay_witnesses(ctx)
@@ -47,6 +97,7 @@ def run(ctx):
     nmix = 3 if ctx.quick else 12
     mods = c01.gen_bundles(ctx, nb)
     stats = collections.Counter(); fails = []; kdis = []
+    run_tagged_strings(ctx, stats, fails)
     for m in mods:
         txt = genmod.module_text(m); env = dict(m["types"])
         b = bundle.Bundle(m["name"], txt, [n for n, _ in m["types"]])
@@ -88,7 +139,7 @@ def run(ctx):
             elif der is not None and mm.group(3) != der.hex() and "SET OF" not in feats: why = "DER re-encoding of the decoded variant differs from the DER of the value"
             if syn == "ber":
                 mres = mo[mi]; mi += 1
-                if mres != "unsupported-type" and "explicit_tag_own_descr" not in feats:
+                if mres != "unsupported-type":
                     cm = mres.split(" ", 2)
                     agree = (cm[0] == (mm.group(1) if mm else "?")) and (cm[0] != "ok" or cm[1] == mm.group(2))
                     if agree and cm[0] == "ok":
